@@ -287,13 +287,34 @@ class CallGraph:
         for n in own_nodes(fi):
             if isinstance(n, ast.For) and isinstance(n.target, ast.Name) and \
                     n.target.id == name:
-                its = [n.iter]
+                its = [(fi, n.iter)]
                 if isinstance(n.iter, ast.Name):
-                    its = assigned_value(fi, n.iter.id)
-                for it in its:
+                    its = [(fi, v) for v in assigned_value(fi, n.iter.id)]
+                    if not its and n.iter.id in fi.params and \
+                            fi.name.startswith('_') and fi.parent is None:
+                        # a parameter of a private method: what its callers in
+                        # the class pass for it
+                        k = fi.params.index(n.iter.id) - 1
+                        for m in cls.methods.values():
+                            if m is fi or not m.params:
+                                continue
+                            for c in own_nodes(m):
+                                if isinstance(c, ast.Call) and isinstance(
+                                        c.func, ast.Attribute) and \
+                                        c.func.attr == fi.name and isinstance(
+                                        c.func.value, ast.Name) and \
+                                        c.func.value.id == m.params[0] and \
+                                        0 <= k < len(c.args):
+                                    a_ = c.args[k]
+                                    if isinstance(a_, ast.Name):
+                                        its += [(m, v) for v in
+                                                assigned_value(m, a_.id)]
+                                    else:
+                                        its.append((m, a_))
+                for owner, it in its:
                     if isinstance(it, ast.Attribute) and isinstance(
                             it.value, ast.Name) and it.value.id in \
-                            _first_params(fi):
+                            _first_params(owner):
                         a = self.p.find_class_attr(cls, it.attr)
                         if a is None:
                             continue
